@@ -1,0 +1,6 @@
+//go:build !verif
+
+package mavl
+
+// verifRotate is a no-op without the verif build tag (see verif_a_on.go).
+func verifRotate(kind int) {}
